@@ -60,6 +60,15 @@ const (
 	NOT
 )
 
+// Go keywords that are ordinary identifiers in Folang.
+// They can't be emitted as they are: such an identifier gets a trailing underscore.
+var goOnlyKeywords = map[string]bool{
+	"break": true, "case": true, "chan": true, "const": true, "continue": true,
+	"default": true, "defer": true, "fallthrough": true, "for": true, "func": true,
+	"go": true, "goto": true, "interface": true, "map": true, "range": true,
+	"return": true, "select": true, "struct": true, "switch": true, "var": true,
+}
+
 var keywordMap = map[string]TokenType{
 	"let":          LET,
 	"package":      PACKAGE,
@@ -312,6 +321,8 @@ func (tkz *Tokenizer) analyzeCur() {
 		// check whether identifier is keyword
 		if tt, ok := keywordMap[cur.stringVal]; ok {
 			cur.ttype = tt
+		} else if goOnlyKeywords[cur.stringVal] {
+			cur.stringVal += "_"
 		}
 	case isNumber(b):
 		tkz.analyzeCurAsIntImm()
